@@ -38,6 +38,8 @@ def run : List String → String
   | ["av1.sizes", lo, hi, seed] => sizes lo.toNat! hi.toNat! seed.toNat!
   | ["av1.json", h] => RpuOps.resJson (Av1.parseObu (unhex h))
   | ["av1.obu", h] => RpuOps.resWrite (parseRpuEntry (unhex h)) (fun r => (writeRpu r).bind Av1.wrapComplete)
+  | ["c08.av1", h] => RpuOps.cls (Av1.parseObu (unhex h))
+  | ["c08.capi", "av1", h] => RpuOps.cls (Av1.parseObu (unhex h))
   | _ => "bad-op"
 
 end Driver.Av1Ops
